@@ -162,7 +162,27 @@ class ST:
 
     __radd__ = __add__
 
+    def matmul(self, o):
+        if not (isinstance(o, ST) and len(self.shape) == 2 and len(o.shape) == 2 and self.shape[1] == o.shape[0]):
+            raise AnalysisError(f"index-level product: `@` between shapes {self.shape} and {getattr(o, 'shape', None)} is not modelled")
+        out = {}
+        for i in range(self.shape[0]):
+            for k in range(o.shape[1]):
+                acc = Rat.const(0)
+                for j in range(self.shape[1]):
+                    acc = acc + self.data[(i, j)] * o.data[(j, k)]
+                out[(i, k)] = acc
+        return ST((self.shape[0], o.shape[1]), out)
+
+    def getitem(self, idx):
+        if isinstance(idx, int):
+            i = idx if idx >= 0 else self.shape[0] + idx
+            return ST(self.shape[1:], {ix[1:]: v for ix, v in self.data.items() if ix[0] == i})
+        raise AnalysisError(f"index-level product: subscript {idx!r} is not modelled")
+
     def sim_binop(self, op, l, r):
+        if isinstance(op, ast.MatMult) and isinstance(l, ST):
+            return l.matmul(r)
         if isinstance(op, ast.Mult):
             return l * r if isinstance(l, ST) else r * l
         if isinstance(op, ast.Add):
@@ -189,6 +209,9 @@ def _st_method(x, name, args, kwargs, where):
         if x.shape[d] != 1:
             return x
         return ST(x.shape[:d] + x.shape[d + 1:], {ix[:d] + ix[d + 1:]: v for ix, v in x.data.items()})
+    if name in ("t", "T") and n == 2 and not args:
+        args = (0, 1)
+        name = "transpose"
     if name in ("transpose",):
         i, j = _dim(args[0], n), _dim(args[1], n)
 
@@ -239,6 +262,11 @@ class IndexHooks(FwdHooks):
 
     def on_call(self, interp, callee, args, kwargs, node, fi):
         return NotImplemented            # batch_mvp is evaluated from its own body here
+
+    def subscript(self, interp, recv, index, node, fi):
+        if isinstance(recv, ST):
+            return recv.getitem(index)
+        return NotImplemented
 
 
 class EmbedHooks(FwdHooks):
